@@ -64,6 +64,15 @@ CHECKS = {
             "shape must run exactly that method.",
             "Documented call shapes only (positional-by-keyword is not generated); applicability by isinstance on builtin classes.",
             "DESIGN.md §4 C03"),
+    "C09": ("translation_validation",
+            "runtime differential monitor (translation validation by execution): rewritten method vs its untouched source with recurse / call_next bound to plain callables, compared on evaluation trace, result, exception, traceback lines, defaults",
+            "Each grammar-generated body is executed twice - as rewritten by the library and untouched - and the ordered trace of "
+            "side effects embedded in every argument expression, results, exception classes, traceback line numbers inside the "
+            "method's file and default / keyword-default / closure values must agree; placements the library rejects at build "
+            "time are reported.",
+            "recurse means 'call the function', call_next 'the function without the current method' or a fresh call; dispatch errors "
+            "compared by kind. F12b / F12c are recognised by their build-time error and call-site shape.",
+            "DESIGN.md §4 C09"),
     "C04": ("exploration",
             "runtime differential monitor: long-lived function vs never-called twin on every call of a history (order pinned)",
             "Each call of a random history (failing calls, nested recurse / call_next / f.next with same and other "
